@@ -6,6 +6,7 @@ require (
 	github.com/apache/yunikorn-core v0.0.0
 	github.com/apache/yunikorn-scheduler-interface v0.0.0-20260528033204-c474acff6d53
 	go.uber.org/zap v1.27.1
+	go.yaml.in/yaml/v3 v3.0.4
 )
 
 require (
@@ -26,7 +27,6 @@ require (
 	github.com/sasha-s/go-deadlock v0.3.9 // indirect
 	go.uber.org/multierr v1.10.0 // indirect
 	go.yaml.in/yaml/v2 v2.4.3 // indirect
-	go.yaml.in/yaml/v3 v3.0.4 // indirect
 	golang.org/x/crypto v0.51.0 // indirect
 	golang.org/x/exp v0.0.0-20260312153236-7ab1446f8b90 // indirect
 	golang.org/x/net v0.54.0 // indirect
